@@ -4,6 +4,7 @@ from __future__ import annotations
 
 import checks_eval as ce
 import checks_text as ct
+import checks_api as ca
 
 T = "JPV.Tables."
 
@@ -69,5 +70,25 @@ PROPS = {
         theorems=["JPV.Props.C19_linecol", "JPV.Props.C19_offset", "JPV.Props.C19_tokens"],
         tables=[T + "regexes_model", T + "exceptions_model"],
         explore=ct.explore_c19,
+    ),
+    "C14": dict(
+        modules=["JPV.Props.C14"],
+        theorems=["JPV.Props.C14_apply_pure", "JPV.Props.C14_envFind_pure", "JPV.Props.C14_apply_deterministic",
+                  "JPV.Props.C14_history", "JPV.Props.C14_frame_register", "JPV.Props.C14_frame_newEnv", "JPV.Props.C14_recompile"],
+        tables=[T + "writes_benign", T + "random_sites_model", T + "builtin_sigs_model"],
+        explore=ca.explore_c14,
+    ),
+    "C15": dict(
+        modules=["JPV.Props.C15"],
+        theorems=["JPV.Props.C15_find_is_list", "JPV.Props.C15_find_one_is_head", "JPV.Props.C15_find_one_lazy",
+                  "JPV.Props.C15_env_paths", "JPV.Props.C15_invalid_same_class"],
+        tables=[T + "writes_benign"],
+        explore=ca.explore_c15,
+    ),
+    "C16": dict(
+        modules=["JPV.Props.C16"],
+        theorems=["JPV.Props.C16", "JPV.Props.C16_abandon"],
+        tables=[T + "writes_benign", T + "random_sites_model"],
+        explore=ca.explore_c16,
     ),
 }
